@@ -39,8 +39,15 @@ def run(ctx):
             ctx.violation("written bytes differ from the documented layout", slim,
                           {"first_differing_offset": k, "impl": w[1][max(0, k - 8):k + 24].hex(), "reference": ref[max(0, k - 8):k + 24].hex(),
                            "impl_len": len(w[1]), "reference_len": len(ref)}, True, size=size)
-        # reader direction
+        # reader direction — in a fresh cache state, or right after a file that differs only in its dimensions / version field
         PoseHeaderCache.clear_cache()
+        if rng.random() < 0.5:
+            near = dict(case, header=dict(case["header"], width=(case["header"]["width"] + 1) % 65536, height=3))
+            try:
+                Pose.read(refenc.v02(near) if rng.random() < 0.7 else refenc.header(case["header"], 0x3DCCCCCD) + b"\x19\x00\x00\x00\x01\x00")
+            except Exception:
+                pass
+            ctx.count("reader direction after a near-identical header")
         try:
             got = Pose.read(ref)
         except Exception as e:
